@@ -28,6 +28,7 @@ func runC13(c *Check, tier string) {
 	})
 	// a forced execution is an execution: its success is decided like any other
 	useFamily(c, "R13g", famExec, 10)
+	shareRule(c, "R13h", "the output hash describes the outputs in their final state: the bin output is made executable before the registry call that hashes and stores the outputs (same obligation as R06i), so a re-execution that reproduces the same outputs reproduces the same hash", 1, "R06i", func(sub *Check) { ruleR06i(sub) }, nil)
 }
 
 // ruleRecordCacheIndependent: nothing that is stored into the (hashed) output
